@@ -59,9 +59,11 @@ theorem Fq2_expOrd : ExpOrdLaws Fq2 := by
 
 theorem fnOK_q : FnOK Fq2 Tq :=
   { expOrd := Fq2_expOrd
-    pow := ⟨fun x y hx => by simpa [Fq2, Fq] using hx.le, fun x y _ h1 _ => by simpa [Fq2, Fq] using h1,
-      fun x x' y _ h _ => by simpa [Fq2, Fq] using h⟩
-    powNN := ⟨fun x y hx => by simpa [Fq2, Fq] using hx⟩
+    pow := ⟨fun x y hx => by simp only [Fq2, Fq]; split_ifs <;> nlinarith,
+      fun x y hx h1 _ => by simp only [Fq2, Fq]; split_ifs <;> nlinarith,
+      fun x x' y hx h _ => by simp only [Fq2, Fq]; split_ifs <;> nlinarith⟩
+    powNN := ⟨fun x y hx => by simp only [Fq2, Fq]; split_ifs <;> nlinarith⟩
+    powSq := ⟨fun x => by simp [Fq2, Fq]⟩
     sin := ⟨fun x => by simp [Tq], fun x => by simp [Tq]⟩ }
 
 /-- `cfgq` with water-table flag `wt` and a window of 14 days -/
